@@ -106,11 +106,21 @@ func (t *TxController) Commit(ctx context.Context) error {
 	if t.finalized {
 		return nil
 	}
+	verifIndex := 0
 	for _, fn := range t.onPreCommit {
+		if pointErr := VerifPoint(ctx, "tx.precommit", verifIndex); pointErr != nil {
+			_ = t.Rollback(ctx)
+			return pointErr
+		}
+		verifIndex++
 		if hookErr := fn(ctx); hookErr != nil {
 			_ = t.Rollback(ctx)
 			return hookErr
 		}
+	}
+	if pointErr := VerifPoint(ctx, "tx.commit", 0); pointErr != nil {
+		_ = t.Rollback(ctx)
+		return pointErr
 	}
 	err := t.tx.Commit()
 	if err != nil {
@@ -118,11 +128,16 @@ func (t *TxController) Commit(ctx context.Context) error {
 		return err
 	}
 	t.finalized = true
+	_ = VerifPoint(ctx, "tx.committed", 0)
+	verifIndex = 0
 	for _, fn := range t.onAfterCommit {
+		_ = VerifPoint(ctx, "tx.aftercommit", verifIndex)
+		verifIndex++
 		if hookErr := fn(ctx); hookErr != nil {
 			return hookErr
 		}
 	}
+	_ = VerifPoint(ctx, "tx.done", 0)
 	return nil
 }
 
@@ -135,7 +150,10 @@ func (t *TxController) Rollback(ctx context.Context) error {
 		return err
 	}
 	t.finalized = true
+	verifIndex := 0
 	for _, fn := range t.onRollback {
+		_ = VerifPoint(ctx, "tx.rollback", verifIndex)
+		verifIndex++
 		if hookErr := fn(ctx); hookErr != nil && err == nil {
 			err = hookErr
 		}
